@@ -13,6 +13,7 @@ type bcase struct {
 	phase  string // init, store, storeall, copy, copy-mut, call, ...
 	skind  string // kind of the store(s) involved: <step>-<what>, or "none"
 	t      *ty
+	group  string // cases of one group share their declarations when packed next to each other
 	decls  string
 	body   string
 	want   []string
@@ -45,6 +46,7 @@ type gen struct {
 	// inline makes show() print inline instead of through a function
 	inline       bool
 	showDeclared bool
+	group        string
 }
 
 func newGen(t *ty) *gen {
@@ -282,15 +284,16 @@ func (g *gen) show(sp, dp string, v *val, tag string) {
 	}
 	if !g.showDeclared {
 		g.showDeclared = true
-		save, sdfl, sdflV := g.b, g.dfl, g.dflV
+		save, sdfl, sdflV, stmp := g.b, g.dfl, g.dflV, g.tmp
 		g.b = strings.Builder{}
 		g.dfl, g.dflV = map[string]string{}, map[string]*val{}
+		g.tmp = 1000 // the text must not depend on where in the case the first use is
 		if v.t.hasOpt() {
 			g.stmt("let tn: bool = false;")
 		}
 		g.printCode("x", v.t)
 		fmt.Fprintf(&g.extra, "fn @@show(x: %s) {\n%s}\n", g.src(v.t), g.b.String())
-		g.b, g.dfl, g.dflV = save, sdfl, sdflV
+		g.b, g.dfl, g.dflV, g.tmp = save, sdfl, sdflV, stmp
 	}
 	g.stmt("@@show(%s);", sp)
 	g.printWant(dp, v, tag)
@@ -384,7 +387,7 @@ func (g *gen) store(base string, root, sent *val, tg target) {
 }
 
 func (g *gen) finish(id, phase, skind string) *bcase {
-	return &bcase{id: id, phase: phase, skind: skind, t: g.t,
+	return &bcase{id: id, phase: phase, skind: skind, t: g.t, group: g.group,
 		decls: g.typeDecls() + g.extra.String(),
 		body:  "fn @@run() {\n" + g.b.String() + "}\n",
 		want:  g.want, labels: g.labels, uni: g.uni}
@@ -445,6 +448,7 @@ func leanCases(t *ty) []*bcase {
 	// (cumulative), everything and the guards printed after each
 	{
 		g := newGen(t)
+		g.group = "lean:" + tk
 		v := g.prologue()
 		g.show("v", "v", v, "init")
 		g.guards("init")
@@ -460,6 +464,7 @@ func leanCases(t *ty) []*bcase {
 	// copy-mut: copy, print both, mutate every component of the copy, print both
 	{
 		g := newGen(t)
+		g.group = "lean:" + tk
 		v := g.prologue()
 		g.stmt("let w: %s = v;", g.src(t))
 		g.show("v", "v", v, "copied")
@@ -477,6 +482,7 @@ func leanCases(t *ty) []*bcase {
 	// call-mut: the callee stores into every component of its parameter and returns it
 	{
 		g := newGen(t)
+		g.group = "lean:" + tk
 		v := g.prologue()
 		save := g.b
 		g.b = strings.Builder{}
@@ -497,6 +503,7 @@ func leanCases(t *ty) []*bcase {
 	// inarr-mut: [v, v2], then every component of element 1 stored
 	{
 		g := newGen(t)
+		g.group = "lean:" + tk
 		v := g.prologue()
 		v2 := mkAlt(t)
 		g.stmt("let v2: %s = %s;", g.src(t), g.expr(v2))
@@ -517,6 +524,7 @@ func leanCases(t *ty) []*bcase {
 	// instruct-mut: { .P, .V = v, .Q }, then every component of .V stored
 	{
 		g := newGen(t)
+		g.group = "lean:" + tk
 		fmt.Fprintf(&g.extra, "type @@W struct {\n    .P: i8,\n    .V: %s,\n    .Q: i64\n};\n", g.src(t))
 		v := g.prologue()
 		g.stmt("let h: @@W = { .P = 77, .V = v, .Q = 8888888888 };")
@@ -539,6 +547,7 @@ func leanCases(t *ty) []*bcase {
 	// is an array element and a struct field
 	{
 		g := newGen(t)
+		g.group = "lean:" + tk
 		fmt.Fprintf(&g.extra, "type @@W struct {\n    .P: i8,\n    .V: %s,\n    .Q: i64\n};\n", g.src(t))
 		v := g.prologue()
 		v2 := mkAlt(t)
@@ -572,6 +581,7 @@ func leanCases(t *ty) []*bcase {
 		leafs := leafOnly(tgs)
 		if len(leafs) > 0 {
 			g := newGen(t)
+		g.group = "lean:" + tk
 			g.methods(leafs)
 			v := g.prologue()
 			g.methodCalls(leafs, v, "method")
@@ -581,6 +591,7 @@ func leanCases(t *ty) []*bcase {
 		// inferred: `let v := { ... } as T;` read back, stored into, read through a method
 		{
 			g := newGen(t)
+		g.group = "lean:" + tk
 			g.methods(leafs)
 			v := g.inferredPrologue()
 			g.show("v", "v", v, "inferred")
@@ -806,6 +817,7 @@ func casesForResult(t *ty) []*bcase {
 	for _, fail := range []bool{false, true} {
 		for _, form := range []string{"ret", "fb"} {
 			g := newGen(t)
+			g.group = "res:" + tk
 			// the producer
 			save := g.b
 			g.b = strings.Builder{}
@@ -886,32 +898,69 @@ func casesForResult(t *ty) []*bcase {
 	return out
 }
 
-// packSource renders cases into one program; lines[i] receives the [first,last] source line
-// of case i.
-func packSource(cases []*bcase, lines *[][2]int) string {
+// declChunks splits declaration text into its top-level declarations.
+func declChunks(decls string) []string {
+	var out []string
+	var cur strings.Builder
+	for _, l := range strings.SplitAfter(decls, "\n") {
+		if (strings.HasPrefix(l, "type ") || strings.HasPrefix(l, "fn ")) && cur.Len() > 0 {
+			out = append(out, cur.String())
+			cur.Reset()
+		}
+		cur.WriteString(l)
+	}
+	if cur.Len() > 0 {
+		out = append(out, cur.String())
+	}
+	return out
+}
+
+// packSource renders cases into one program. Neighbouring cases of the same group share one
+// name prefix and their identical declarations are emitted once. lines[i] receives the source
+// line ranges that belong to case i (its function and every declaration it uses).
+func packSource(cases []*bcase, lines *[][][2]int) string {
 	var b strings.Builder
 	ln := 1
-	w := func(s string) {
+	w := func(s string) [2]int {
+		first := ln
 		b.WriteString(s)
 		ln += strings.Count(s, "\n")
+		return [2]int{first, ln - 1}
 	}
 	w("import \"std/io\";\n\n")
 	if lines != nil {
-		*lines = make([][2]int, len(cases))
+		*lines = make([][][2]int, len(cases))
 	}
+	leader := make([]int, len(cases))
+	emitted := map[string][2]int{}
 	for i, k := range cases {
-		pfx := fmt.Sprintf("K%d_", i)
-		first := ln
-		w(strings.ReplaceAll(k.decls, "@@", pfx))
-		w(strings.ReplaceAll(k.body, "@@", pfx))
+		if i > 0 && k.group != "" && cases[i-1].group == k.group {
+			leader[i] = leader[i-1]
+		} else {
+			leader[i] = i
+			emitted = map[string][2]int{}
+		}
+		pfx := fmt.Sprintf("K%d_", leader[i])
+		for _, ch := range declChunks(k.decls) {
+			r, ok := emitted[ch]
+			if !ok {
+				r = w(strings.ReplaceAll(ch, "@@", pfx))
+				emitted[ch] = r
+			}
+			if lines != nil {
+				(*lines)[i] = append((*lines)[i], r)
+			}
+		}
+		body := strings.ReplaceAll(k.body, "@@run(", fmt.Sprintf("@@run%d(", i))
+		r := w(strings.ReplaceAll(body, "@@", pfx))
 		if lines != nil {
-			(*lines)[i] = [2]int{first, ln - 1}
+			(*lines)[i] = append((*lines)[i], r)
 		}
 		w("\n")
 	}
 	w("fn main() {\n")
 	for i := range cases {
-		w(fmt.Sprintf("    io::Println(\"#case %d\");\n    K%d_run();\n", i, i))
+		w(fmt.Sprintf("    io::Println(\"#case %d\");\n    K%d_run%d();\n", i, leader[i], i))
 	}
 	w("    io::Println(\"#end\");\n}\n")
 	return b.String()
